@@ -156,6 +156,27 @@ def run(spec, ctx):
                               (" ".join(o.argv()), got, want, rc, (tb or err)[-300:]))
         # look-ups, no selection option: hidden / non-serviceable PELs are considered (wrapper checks every call)
         e0 = rng.choice(ents)
+        # a hidden, informational PEL whose ids are all zero: look-ups by "0" must still consider it
+        z = dirs.gen_dir_model(rng, u, 1, bmc_style=False)[0]
+        z.pel.ph.update(bmcid=0, plid=0, eid=0)
+        z.pel.uh.update(sev=0x00, flags=0x4000)
+        z.name = "zero_00000000.pel"
+        z.data = z.pel.encode()
+        if not any(e.pel.bmcid == 0 or e.pel.plid == 0 for e in ents):
+            d.add(z)
+            for argv, what in ((["--bmc-id", "0"], "bmc id"), (["--plid", "00000000"], "PLID"), (["-i", "00000000"], "entry id")):
+                ctx.current = {"argv": argv}
+                rc, out, err, tb = harness.cli(["-p", d.root] + argv)
+                ctx.count("cli.zero_id_lookups")
+                try:
+                    found = bool(json.loads(out))
+                except ValueError:
+                    found = False
+                if tb or not found:
+                    ctx.violation("C07/lookup-zero-id", "look-up %s for a hidden informational PEL whose %s is 0 printed %r (rc=%s %s)" %
+                                  (" ".join(argv), what, out[:120], rc, (tb or "")[-200:]))
+            os.unlink(z.path)
+            d.entries.remove(z)
         IN_CLI[0] = True
         for argv in (["--plid", "%08X" % e0.pel.plid], ["--src", "B"], ["--src", "1"], ["--src-exclude", excl],
                      ["-i", "%08X" % e0.pel.eid], ["--bmc-id", str(e0.pel.bmcid)], ["-l"], ["-a"], ["-l", "-H", "-O"]):
